@@ -81,15 +81,38 @@ def run(ctx):
                 tree.write("d/other.txt", b"o")
                 tree.write("d/subdir/inner.txt", b"i")
                 tree.write("d/page.html", b"<html><head><title>T</title></head></html>")
+                # values a cache must give back exactly although they are "falsy": size 0, port 0, empty strings
+                tree.write("d/zero-length.txt", b"")
+                tree.write("d/.Links", b"Name=an info line from a link file\nType=i\nPath=fake\nHost=(NULL)\nPort=0\n\n"
+                                       b"Name=Numbered zero\nType=1\nPath=/elsewhere\nHost=example.org\nPort=70\nNumb=0\n")
                 # transparency oracle: the same tree listed with caching off (own cache file name, lifetime 0)
                 cfg0 = pyg.make_config(tree.root, **{"handlers.dir.DirHandler|cachetime": "0", "handlers.dir.DirHandler|cachefile": ".cache.verif-fresh"})
-                clock.ms = 0
+                # the whole tree lives on the substituted clock: a realistic epoch, directory and file times included
+                BASE = 1_700_000_000_000
+                clock.ms = BASE
+                inplace = (h % 3 == 1)      # the version is carried by the content of a link file edited in place (directory mtime untouched)
+                if inplace:
+                    os.unlink(tree.path("d/marker-0.txt"))
+                    tree.write("d/.names", b"Path=./other.txt\nName=marker-0 is the name\n")
+                for dp, dn, fn in os.walk(tree.root):
+                    for x in dn + fn:
+                        os.utime(os.path.join(dp, x), (BASE / 1000.0, BASE / 1000.0))
+                os.utime(tree.root, (BASE / 1000.0, BASE / 1000.0))
                 cur = 0
-                hist = [(0, 0)]          # (time ms, version) the directory has been in
+                hist = [(BASE, 0)]          # (time ms, version) the directory has been in
                 outs = []
                 for op, arg in ops:
                     if op == "m":
-                        os.rename(tree.path("d/marker-%d.txt" % cur), tree.path("d/marker-%d.txt" % arg))
+                        now = clock.ms / 1000.0
+                        if inplace:
+                            with open(tree.path("d/.names"), "r+b") as f_:          # same inode, same directory entry: the directory's mtime stays
+                                f_.seek(0)
+                                f_.truncate()
+                                f_.write(b"Path=./other.txt\nName=marker-%d is the name\n" % arg)
+                            os.utime(tree.path("d/.names"), (now, now))
+                        else:
+                            os.rename(tree.path("d/marker-%d.txt" % cur), tree.path("d/marker-%d.txt" % arg))
+                            os.utime(tree.path("d"), (now, now))
                         cur = arg
                         hist.append((clock.ms, cur))
                     elif op == "t":
@@ -103,6 +126,9 @@ def run(ctx):
                         after = os.stat(cpath).st_mtime_ns if os.path.exists(cpath) else None
                         if after is not None and after != before:
                             os.utime(cpath, (clock.ms / 1000.0, clock.ms / 1000.0))   # the kernel stamped real time
+                            if before is None:
+                                # creating the cache file is a write to the directory: its mtime is the same moment
+                                os.utime(tree.path("d"), (clock.ms / 1000.0, clock.ms / 1000.0))
                         m = re.search(rb"marker-(\d+)", rows or b"")
                         v = int(m.group(1)) if m else None
                         fresh_rows, _fr = listing.real_rows(view, gplus, cfg0, "/d")
@@ -111,7 +137,7 @@ def run(ctx):
                             res.violation("C10:cached-listing-differs:" + view, "a listing served through the cache differs from the listing generated without it "
                                           "(apart from the directory version it shows)", {"lifetime": T, "ops": ops, "at_ms": clock.ms, "view": view, "gplus": gplus},
                                           observed=norm(rows)[:600], required=norm(fresh_rows)[:600], replay={"lifetime": T, "ops": ops})
-                        outs.append((clock.ms, v, view))
+                        outs.append((clock.ms - BASE, v, view))
                         # oracle: v is the version the directory had at some t with now - t < T (or now)
                         ok = v == cur
                         if not ok and v is not None:
